@@ -258,6 +258,14 @@ impl RuntimeData {
         self.global_vars.clear();
         self.call_stack.clear();
         self.open_upvalues = std::ptr::null_mut();
+        // a cleared VM collects when a new one would
+        unsafe {
+            let alloc = self.memory.get_inner();
+            let limit = alloc.limit.load(std::sync::atomic::Ordering::Relaxed);
+            alloc
+                .next_gc
+                .store((limit / 4).max(16), std::sync::atomic::Ordering::Relaxed);
+        }
         #[cfg(feature = "verif-hooks")]
         crate::verif::emit(|| crate::verif::Event::Clear {
             allocated: self.memory.allocated.load(std::sync::atomic::Ordering::Relaxed),
